@@ -115,13 +115,8 @@ func VerifC12Frames() {
 				} else if mode == 3 && r == 0 && c == f%cols {
 					// any palette index: the renderer's and the emulator's boundaries between
 					// the 8 normal, 8 bright and 240 extended colours are found by the solver
-					// (foreground in the first frame, background in the second: the emulator's
-					// SGR switch forks once per listed case value)
-					if f == 0 {
-						st.Foreground = vaxis.IndexColor(zzverif.Uint8("fgi"))
-					} else {
-						st.Background = vaxis.IndexColor(zzverif.Uint8("bgi"))
-					}
+					st.Foreground = vaxis.IndexColor(zzverif.Uint8("fgi"))
+					st.Background = vaxis.IndexColor(zzverif.Uint8("bgi"))
 				}
 				if sel != 0 {
 					win.SetCell(c, r, vaxis.Cell{Character: vaxis.Character{Grapheme: sp.g, Width: sp.w}, Style: st})
